@@ -9,6 +9,9 @@ Not proved here (see OPEN_STATEMENTS in harness/c16.py): the operator-level stat
 Fock-space soundness of freeze_orbitals for whole operators, SCBK sector): Spec oracle only.
 -/
 import OFV.Proofs.C16
+import OFV.Proofs.C16Pauli
+import OFV.Proofs.C16Loop
+import OFV.Proofs.C16Proj
 
 namespace OFV.C16
 open OFV OFV.Spec OFV.Model OFV.Model.C16 OFV.C16P OFV.Generated
@@ -120,5 +123,170 @@ theorem sector_factor_spec (q s : Nat) :
   · intro q' p hq
     unfold actP
     split <;> simp [testBit_xflip_ne _ _ _ hq]
+
+/-! ### operator-level statements in `Module.End GQ (ℕ →₀ GQ)`
+
+`evOp A` is the endomorphism of the space of finite superpositions of computational basis states
+denoted by the QubitOperator `A`; its matrix elements are the shared Spec's. -/
+
+/-- `evOp` has the matrix elements of the shared Spec (`Spec.applyOp .qubit`). -/
+theorem evOp_matrix_elements (A : Model.Op) (m x : Nat) :
+    (evOp A (Finsupp.single m 1)) x = GV.coeff (applyOp .qubit A [m]) [x] :=
+  evOp_apply A m x
+
+/-- **`fix_single_term_equiv`**: whatever `fix_single_term` returns (the term itself or the term
+times the stabilizer) acts like the term on every state `ψ` stabilized by the stabilizer
+(`S ψ = ψ`), for arbitrary operators `term`, `stabilizer` with Pauli codes `< 4` (any coefficients,
+any signs, any number of terms). -/
+theorem fix_single_term_equiv (term stab r : Model.Op) (pos f o : Nat) (ht : Sem.ValidOp term)
+    (hs : Sem.ValidOp stab) (h : fixSingleTerm term pos f o stab = .ok r) (ψ : QS)
+    (hψ : evOp stab ψ = ψ) : evOp r ψ = evOp term ψ := by
+  cases term with
+  | nil => simp [fixSingleTerm, firstEntry] at h; cases h
+  | cons e t =>
+    simp only [fixSingleTerm, firstEntry] at h
+    have h' : (if (e.1.contains (pos, f) || e.1.contains (pos, o)) = true then
+        (Except.ok (mulOp .qubit (e :: t) stab) : Except Err Model.Op) else .ok (e :: t)) = .ok r := h
+    split at h'
+    · cases h'
+      rw [evOp_mulOp _ _ ht hs, Module.End.mul_apply, hψ]
+    · cases h'; rfl
+
+/-- non-vacuity: `X0 X1` stabilizes `|00⟩ + |11⟩` and `Z0 Z1` (containing `Z` at the fixed position 0)
+is multiplied by it -/
+example : fixSingleTerm [([(0, 3), (1, 3)], 1)] 0 3 2 [([(0, 1), (1, 1)], 1)]
+    = .ok (mulOp .qubit [([(0, 3), (1, 3)], 1)] [([(0, 1), (1, 1)], 1)]) := by decide +kernel
+
+/- Full statement: for every tolerance `tol`, whenever `_reduce_terms` succeeds its result acts like
+   the input operator on every state stabilized by all the stabilizers.  Proved below for the loop run
+   with `tol = 0` (the `+=` of `new_terms` never prunes); missing for `tol = 1e-8`: the bookkeeping that
+   no partial sum of the run is non-zero but below the tolerance (`ExactAdd` along the run). -/
+/-- **`reduce_terms_agrees_on_codespace`** (pruning-free arithmetic).  For any operator and any list
+of stabilizers with Pauli codes `< 4` — any signs and coefficients, automatic or manual fixed
+positions, commuting or not, independent or not — if the loop of `_reduce_terms` succeeds, the
+reduced operator and the original one act identically on every state `ψ` with `S ψ = ψ` for all
+stabilizers `S` (induction over the stabilizer list: the updated stabilizers still stabilize `ψ`). -/
+theorem reduce_terms_agrees_on_codespace_partial (terms out : Model.Op) (stabs : List Model.Op) (manual : Bool)
+    (fixed fx : List Nat) (stale : Bool) (hv : Sem.ValidOp terms) (hs : ∀ s ∈ stabs, Sem.ValidOp s)
+    (h : reduceTerms 0 terms stabs manual fixed = .ok (out, fx, stale)) (ψ : QS)
+    (hψ : ∀ s ∈ stabs, evOp s ψ = ψ) : evOp out ψ = evOp terms ψ := by
+  rw [reduceTerms_eq] at h
+  cases hf : (List.range stabs.length).foldlM (redBody 0 manual)
+      (terms, (⟨[], stabs, if manual then fixed else [], none, false⟩ : LoopState)) with
+  | error e => simp [hf, bind, Except.bind] at h
+  | ok r =>
+    simp only [hf, bind, Except.bind, Except.ok.injEq, Prod.mk.injEq] at h
+    have hI := foldlM_inv manual ψ (evOp terms) _ _ r hf
+      ⟨hv, fun s hsm => ⟨hs s hsm, hψ s hsm⟩, rfl⟩
+    rw [← h.1]
+    exact hI.2.2
+
+/-- non-vacuity: `Z0 Z1 + Y0 Y1` reduced with the stabilizer `X0 X1` -/
+example : (match reduceTerms 0 [([(0, 3), (1, 3)], 1), ([(0, 2), (1, 2)], 1)] [[([(0, 1), (1, 1)], 1)]] false [] with
+    | .ok r => r.1.length
+    | .error _ => 99) = 1 := by decide +kernel
+
+/-! ### `project_onto_sector` as matrix elements between embedded states
+
+`Emb qubits sectors E` says that `E` embeds basis states of the small register into the full one:
+kept qubit `q` sits at bit `shiftDown qubits q` of the small mask, removed qubits carry their
+sector value (OFV/Proofs/C16Proj.lean; `emb_example` is an instance). -/
+
+/-- **a kept term** (Pauli codes 1..3, no `X` / `Y` on a removed qubit): its matrix elements between
+embedded states are those of the re-indexed term times `(-1)^(number of Z on sector-1 qubits)` —
+the coefficient `project_onto_sector` stores.  Tolerance-free, any term length. -/
+theorem project_term_kept (qubits sectors : List Nat) (E : Nat → Nat) (hE : Emb qubits sectors E)
+    (hsec : ∀ q, sectors[indexOf qubits q]?.getD 0 = 0 ∨ sectors[indexOf qubits q]?.getD 0 = 1)
+    (τ : Model.Term) (hp : Pauli123 τ) (hz : ∀ f ∈ τ, f.1 ∈ qubits → f.2 = 3) (s t : Nat) :
+    Sem.termCoef .qubit τ [E s] [E t]
+      = GQ.sgn (expo qubits sectors τ) * Sem.termCoef .qubit (newTerm qubits τ) [s] [t] :=
+  termCoef_kept qubits sectors E hE hsec τ hp hz s t
+
+/-- **a dropped term** (`X` or `Y` on a removed qubit, distinct qubit indices) has no matrix element
+inside the sector. -/
+theorem project_term_dropped (qubits sectors : List Nat) (E : Nat → Nat) (hE : Emb qubits sectors E)
+    (τ : Model.Term) (hd : τ.Pairwise (fun a b => a.1 ≠ b.1))
+    (hxy : τ.any (fun t => qubits.contains t.1 && (t.2 == 1 || t.2 == 2)) = true) (s t : Nat) :
+    Sem.termCoef .qubit τ [E s] [E t] = 0 :=
+  termCoef_dropped qubits sectors E hE τ hd hxy s t
+
+/- Full statement: for the live tolerance as well.  Proved for the loop run without pruning (`tol = 0`);
+   missing: that no partial sum of `projected_operator +=` is non-zero but below `1e-8`. -/
+/-- **`project_onto_sector_sound`** (pruning-free arithmetic): if `project_onto_sector` succeeds on an
+operator whose terms are Pauli strings on distinct qubits, then
+`⟨t| projected |s⟩ = ⟨E t| operator |E s⟩` for all basis states `s, t` of the small register — the
+matrix elements of the shared Spec (`Spec.applyOp .qubit`). -/
+theorem project_onto_sector_sound_partial (A B : Model.Op) (qubits sectors : List Nat) (E : Nat → Nat)
+    (hE : Emb qubits sectors E)
+    (hA : ∀ e ∈ A, Pauli123 e.1 ∧ e.1.Pairwise (fun a b => a.1 ≠ b.1))
+    (h : projectOntoSector 0 A qubits sectors = .ok B) (s t : Nat) :
+    GV.coeff (applyOp .qubit B [s]) [t] = GV.coeff (applyOp .qubit A [E s]) [E t] := by
+  unfold projectOntoSector at h
+  split at h
+  · cases h
+  · split at h
+    · cases h
+    · rename_i hany
+      have hsec : ∀ q, sectors[indexOf qubits q]?.getD 0 = 0 ∨ sectors[indexOf qubits q]?.getD 0 = 1 := by
+        intro q
+        cases hg : sectors[indexOf qubits q]? with
+        | none => left; rfl
+        | some v =>
+          have hm : v ∈ sectors := List.mem_of_getElem? hg
+          have : ¬ (sectors.any (fun i => decide (i ≠ 0 ∧ i ≠ 1)) = true) := hany
+          rw [List.any_eq_true] at this
+          have h2 : ¬ (v ≠ 0 ∧ v ≠ 1) := fun hv => this ⟨v, hm, by simpa using hv⟩
+          simp only [Option.getD_some]
+          omega
+      cases h
+      have := project_fold qubits sectors E hE hsec s t A [] hA
+      rw [Sem.den_nil, zero_add] at this
+      exact this
+
+/-- non-vacuity: removing qubit 0 in sector 1 (`E s = 2s + 1`) from `Z0 X1 + X0` -/
+example : Emb [0] [1] (fun s => 2 * s + 1) ∧
+    (∀ e ∈ ([([(0, 3), (1, 1)], 1), ([(0, 1)], 1)] : Model.Op),
+      Pauli123 e.1 ∧ e.1.Pairwise (fun a b => a.1 ≠ b.1)) :=
+  ⟨emb_example, by
+    intro e he
+    simp only [List.mem_cons, List.not_mem_nil, or_false] at he
+    rcases he with rfl | rfl <;> simp [Pauli123]⟩
+
+/-- **`rotate_qubit_by_pauli_sound`**: for a Pauli string `P` on distinct qubits, `c² + s² = 1`,
+called with `cos 2θ = c² - s²`, `sin 2θ = 2cs`, the Model of `rotate_qubit_by_pauli` succeeds and
+its result denotes `(c - i s P) Q (c + i s P) = e^{-iθP} Q e^{iθP}` — as endomorphisms, for every
+QubitOperator `Q` with Pauli codes `< 4` and complex coefficients, in the exact regime of the four
+`+` / `-` it performs (`ExactAdd`: no partial sum is non-zero but below the tolerance). -/
+theorem rotate_qubit_by_pauli_sound (tol : Rat) (qop : Model.Op) (p : Model.Term) (c s : GQ)
+    (hq : Sem.ValidOp qop) (hp : Sem.ValidQ p) (hd : p.Pairwise (fun a b => a.1 ≠ b.1))
+    (hcs : c * c + s * s = 1)
+    (h1 : ExactAdd tol qop (rPQP qop [(p, 1)]))
+    (h2 : ExactAdd tol qop ((rPQP qop [(p, 1)]).map fun e => (e.1, -e.2)))
+    (h3 : ExactAdd tol (rEven tol qop [(p, 1)]) (Model.smul (c * c - s * s) (rOdd tol qop [(p, 1)])))
+    (h4 : ExactAdd tol (rA tol qop [(p, 1)] (c * c - s * s)) (rLast tol qop [(p, 1)] (2 * c * s))) :
+    ∃ r, rotateQubitByPauli tol qop [(p, 1)] (c * c - s * s) (2 * c * s) = .ok r ∧
+      evOp r = (c • (1 : Module.End GQ QS) - (GQ.I * s) • evT p) * evOp qop
+                 * (c • (1 : Module.End GQ QS) + (GQ.I * s) • evT p) := by
+  refine ⟨_, rotate_eq tol qop p _ _, ?_⟩
+  have hP : Sem.ValidOp [(p, (1 : GQ))] := by intro x hx; simp at hx; subst hx; exact hp
+  have hPQ : Sem.ValidOp (mulOp .qubit [(p, 1)] qop) := Sem.mulOp_valid hP hq
+  have hPQP : Sem.ValidOp (rPQP qop [(p, 1)]) := Sem.mulOp_valid hPQ hP
+  have hOdd : Sem.ValidOp (rOdd tol qop [(p, 1)]) := smul_valid _ _ (isub_valid tol _ _ hq hPQP)
+  have ePQP : evOp (rPQP qop [(p, 1)]) = evT p * evOp qop * evT p := by
+    rw [rPQP, evOp_mulOp _ _ hPQ hP, evOp_mulOp _ _ hP hq, evOp_pauli]
+  rw [evOp_iadd tol _ _ h4, rA, evOp_iadd tol _ _ h3, rLast, evOp_mulOp _ _ (smul_valid _ _ hOdd) hP,
+    evOp_smul, evOp_smul, evOp_pauli, rEven, rOdd, evOp_smul, evOp_smul, evOp_iadd tol _ _ h1,
+    evOp_isub tol _ _ h2, ePQP]
+  exact rot_identity (evOp qop) (evT p) (evT_sq p hd) c s rHalf hcs rHalf_add
+
+/-- non-vacuity: rotating `X0` about `Z0` with `(cos θ, sin θ) = (3/5, 4/5)` at the live tolerance -/
+example : c35 * c35 + s45 * s45 = 1 ∧
+    ExactAdd eqTolerance exX0 (rPQP exX0 [(exZ0, 1)]) ∧
+    ExactAdd eqTolerance exX0 ((rPQP exX0 [(exZ0, 1)]).map fun e => (e.1, -e.2)) ∧
+    ExactAdd eqTolerance (rEven eqTolerance exX0 [(exZ0, 1)])
+      (Model.smul (c35 * c35 - s45 * s45) (rOdd eqTolerance exX0 [(exZ0, 1)])) ∧
+    ExactAdd eqTolerance (rA eqTolerance exX0 [(exZ0, 1)] (c35 * c35 - s45 * s45))
+      (rLast eqTolerance exX0 [(exZ0, 1)] (2 * c35 * s45)) := by
+  decide +kernel
 
 end OFV.C16
